@@ -80,6 +80,10 @@ def has_cmp(t):
 
 
 def run(ctx):
+    C.seam_check(ctx["report"], ctx["rundir"], "C04", wrappers=[],
+                 pairs=[("(5 mg | kg) * 1000000 == 5", "1"), ("(7 kg m | g s^2) to m | s^2", "7000"), ("(250 mg | kg) * 2 kg to mg", "500"), ("(3 km | m) == 3000", "1"),
+                        ("5 centidays to s; 2 cd", "2 cd"), ("1 milliinch to m; 3 min to s", "180"), ("1 picotonne to kg; 2 pt to l", "2 pt to l"),
+                        ("1 femtotonne to kg; 3 ft to m", "3 ft to m"), ("1 yoctoday to s; 1 yd to m", "1 yd to m"), ("5 km to m; 5 km to m; 5 km to m", "5000")])
     C.config_matrix(ctx["report"], ctx["rundir"], "C04", ["1 eur to usd", "100 eur to gbp", "1 gbp to eur", "(1 eur to usd) usd to eur", "5 eur to eur", "1 keur to eur", "1 € to eur", "1 $ to usd", "3 eur + 2 eur to eur", "1 usd to jpy", "5 km to m", "-40 degC to degF", "5 mg | kg to g | g", "3 km | m", "(250 mg | kg) * 2 kg to mg", "7 kg m | g s^2 to m | s^2"])
     rep, tier = ctx["report"], ctx["tier"]
     trees, units, ndims, n_exh = Q.build_cases(ctx, 2000 if tier == "quick" else 30000, rational_only=False)
